@@ -353,14 +353,16 @@ class IndexedSet(MutableSet):
 
     def intersection_update(self, *others):
         "intersection_update(*others) -> discard self.difference(*others)"
-        for val in self.difference(*others):
+        keep = self.intersection(*others)
+        for val in self.difference(keep):
             self.discard(val)
 
     def difference_update(self, *others):
         "difference_update(*others) -> discard self.intersection(*others)"
         if self in others:
             self.clear()
-        for val in self.intersection(*others):
+        keep = self.difference(*others)
+        for val in self.difference(keep):
             self.discard(val)
 
     def symmetric_difference_update(self, other):  # note singular 'other'
